@@ -128,7 +128,9 @@ impl ValueWriter for Rec<'_> {
     }
     fn error(self, error: ValidationError) {
         LAST_CALL.with(|c| *c.borrow_mut() = Call::ErrRaw(error.clone()));
-        *self.0.borrow_mut() = sx::tag(2, vec![sx::b(error.to_string())]);
+        // the wording of a validation error is not compared (no property fixes it): a fixed token
+        let _ = &error;
+        *self.0.borrow_mut() = sx::tag(2, vec![sx::b("error")]);
     }
 }
 fn record(v: &impl Value) -> Sx {
@@ -281,7 +283,7 @@ fn feed_mean<U: Tg>(calls: &[Call]) -> (Mean<U>, Sx) {
         // record_value takes any Value, whatever unit it promises
         rs.push(match m.record_value(&Script::<unit::None>::new(c.clone())) {
             Ok(()) => Sx::L(vec![]),
-            Err(e) => Sx::L(vec![sx::b(e.to_string())]),
+            Err(_) => Sx::L(vec![sx::b("error")]),
         });
     }
     (m, Sx::L(rs))
@@ -378,7 +380,7 @@ where
         DurShape::OptD(d) => record(&WithUnit::<Option<Duration>, T>::from(*d)),
         DurShape::MeanD(ds) => match Mean::<unit::Millisecond>::try_new(ds.iter()) {
             Ok(m) => record(&WithUnit::<Mean<unit::Millisecond>, T>::from(m)),
-            Err(e) => sx::tag(2, vec![sx::b(e.to_string())]),
+            Err(_) => sx::tag(2, vec![sx::b("error")]),
         },
     }
 }
@@ -594,6 +596,32 @@ mod attr {
         #[metrics(unit = Terabyte)]
         pub s_any: Script<metrique::unit::None>,
     }
+    /// the same fields handed to the entry as they are (`no_close`): the declared unit applies all the same
+    #[metrics]
+    pub struct AttrEntryNC {
+        #[metrics(no_close)]
+        pub d_default: Duration,
+        #[metrics(no_close, unit = Second)]
+        pub d_s: Duration,
+        #[metrics(no_close, unit = Microsecond)]
+        pub d_us: Duration,
+        #[metrics(no_close, unit = Millisecond)]
+        pub d_opt: Option<Duration>,
+        #[metrics(no_close, unit = Megabyte)]
+        pub n_mb: u64,
+        #[metrics(no_close, unit = Percent)]
+        pub f_pct: f64,
+        #[metrics(no_close, unit = Count)]
+        pub n_count: u32,
+        #[metrics(no_close, unit = Kilobit)]
+        pub s_kbit: Script<Gigabyte>,
+        #[metrics(no_close, unit = BytePerSecond)]
+        pub s_rate: Script<TerabitPerSecond>,
+        #[metrics(no_close, unit = Microsecond)]
+        pub s_time: Script<Second>,
+        #[metrics(no_close, unit = Terabyte)]
+        pub s_any: Script<metrique::unit::None>,
+    }
 }
 
 struct FieldRec(Vec<Sx>);
@@ -626,13 +654,13 @@ fn attr_trees(d: [Duration; 3], dopt: Option<Duration>, n: u64, f: f64, c: u32, 
         ("s_any", w(V::Script("None".into(), c3), "Terabyte")),
     ]
 }
-fn exec_attr(fields: &[(String, V)]) -> Option<Sx> {
+fn exec_attr(fields: &[(String, V)], no_close: bool) -> Option<Sx> {
     use metrique::CloseValue;
     let dur = |v: &V| match v { V::Dur(s, n) => Some(Duration::new(*s, *n)), V::With(i, _) => match &**i { V::Dur(s, n) => Some(Duration::new(*s, *n)), _ => Option::None }, _ => Option::None };
     let inner = |v: &V| match v { V::With(i, _) => Some((**i).clone()), _ => Option::None };
     let script = |v: &V| match inner(v)? { V::Script(_, c) => Some(c), _ => Option::None };
     if fields.len() != 11 { return Option::None; }
-    let e = attr::AttrEntry {
+    macro_rules! build { ($t:ident) => { attr::$t {
         d_default: dur(&fields[0].1)?,
         d_s: dur(&fields[1].1)?,
         d_us: dur(&fields[2].1)?,
@@ -644,10 +672,16 @@ fn exec_attr(fields: &[(String, V)]) -> Option<Sx> {
         s_rate: Script::new(script(&fields[8].1)?),
         s_time: Script::new(script(&fields[9].1)?),
         s_any: Script::new(script(&fields[10].1)?),
-    };
+    } } }
+    let mut rec = FieldRec(vec![]);
+    if no_close {
+        let root = metrique::RootEntry::new(build!(AttrEntryNC).close());
+        metrique_writer_core::Entry::write(&root, &mut rec);
+        return Some(Sx::L(rec.0));
+    }
+    let e = build!(AttrEntry);
     let closed = e.close();
     let root = metrique::RootEntry::new(closed);
-    let mut rec = FieldRec(vec![]);
     metrique_writer_core::Entry::write(&root, &mut rec);
     Some(Sx::L(rec.0))
 }
@@ -853,10 +887,15 @@ pub fn run(ctx: &Ctx) {
         }
     };
     let do_attr = |out: &mut Out, fields: &[(String, V)]| {
-        let case = sx::tag(3, vec![Sx::L(fields.iter().map(|(n, v)| Sx::L(vec![sx::b(n), enc_v(v)])).collect())]);
-        match exec_attr(fields) {
-            Some(imp) => { out.count("attr_entry"); out.case(&case, &imp, true); }
-            Option::None => out.fail("harness cannot build the attribute entry from this case".into(), &case),
+        // second argument (the model does not read it): the fields are declared `no_close`
+        for nc in [false, true] {
+            let mut args = vec![Sx::L(fields.iter().map(|(n, v)| Sx::L(vec![sx::b(n), enc_v(v)])).collect())];
+            if nc { args.push(sx::boolean(true)); }
+            let case = sx::tag(3, args);
+            match exec_attr(fields, nc) {
+                Some(imp) => { out.count(if nc { "attr_entry_no_close" } else { "attr_entry" }); out.case(&case, &imp, true); }
+                Option::None => out.fail("harness cannot build the attribute entry from this case".into(), &case),
+            }
         }
     };
 
